@@ -71,6 +71,7 @@ type c10Pass struct {
 	After     map[string]vk.Node
 	T         int64
 	Panic     string
+	PanicSite string
 }
 type c10Out struct {
 	Passes   []c10Pass
@@ -244,6 +245,7 @@ func c10Run(in c10In) c10Out {
 			defer func() {
 				if r := recover(); r != nil {
 					pass.Panic = fmt.Sprint(r)
+					pass.PanicSite = vPanicSite()
 				}
 			}()
 			app.repairCluster(state, stateDcs, "h1")
